@@ -39,7 +39,7 @@ EXTRA_MODULES = {
     "C07": ["Tie.Plan", "Tie.Subband", "Kernels.InvertFreq", "Kernels.MaskChannels", "Kernels.Subband",
             "Kernels.RemoveZerodm", "Kernels.Downsample2d"],
     "C08": ["Tie.HeaderUpdates"],
-    "C09": ["Tie.Dedisperse", "Tie.Subband", "Kernels.Dedisperse", "Kernels.Subband", "Kernels.RollBlock", "Kernels.DmtBlock", "Tie.DmLaw"],
+    "C09": ["Tie.Dedisperse", "Tie.Subband", "Kernels.Dedisperse", "Kernels.Subband", "Kernels.RollBlock", "Kernels.DmtBlock", "Tie.DmLaw", "Tie.DedispBlock"],
     "C10": ["Tie.Moments"],
     "C11": ["Tie.Plan", "Tie.Fold", "Kernels.Fold"],
     "C12": ["Tie.FftLengths"],
